@@ -54,6 +54,9 @@ func Offsets(t *rapid.T, n int, label string) []float32 {
 			out[i] = math.Nextafter32(out[i-1], 2)
 		}
 	}
+	if n > 0 && out[0] == 0 && rapid.IntRange(0, 3).Draw(t, label+".negzero") == 0 {
+		out[0] = float32(math.Copysign(0, -1)) // minus zero is zero: a valid first offset
+	}
 	return out
 }
 
